@@ -28,6 +28,7 @@ EXPLANATION = (
     "normaliser term is the logsumexp of the flattened logits over the last axis, declared over the batch inputs. R14.5: every "
     "implementation of _sample that calls _sample of a sub-term passes on its rng_key (or a key obtained by splitting it) together with "
     "its sample_inputs unchanged."
+    ' R14.7: the maximum subtracted before exp() in Tensor._sample is taken along the axis the probabilities are normalised over. R14.8: Delta + Delta merges the terms only after both orientations (lhs.fresh against rhs.inputs and the mirror image) were tested. R14.9: every eager_reduce method hands the remaining variables on with its own op, or with a constant op the path has established to be that op. R14.10: an op applied to funsor-valued expressions in Delta.eager_subs has a default implementation that does not merely raise (Numbers carry Python scalars).'
 )
 ASSUMPTIONS = ["the categorical draw itself, Gaussian sampling and all values are not decided"]
 RULE_TEXT = "one obligation per rule site"
